@@ -148,6 +148,21 @@ def fingerprint(r):
     return (r['st'], r.get('raw'), r.get('msg'))
 
 
+def fnv1a(s):
+    h = 0xcbf29ce484222325
+    for b in s.encode():
+        h = ((h ^ b) * 0x100000001b3) & 0xffffffffffffffff
+    return h
+
+
+def hashed(fp):
+    """the fingerprint as the driver reports it under --hash-raw"""
+    st, raw, msg = fp
+    if st == 'ok' and raw is not None:
+        raw = '#%016x/%d' % (fnv1a(raw), len(raw.encode()))
+    return (st, raw, msg)
+
+
 def check(v, tier):
     binary = xp.build_xp()
     so = shim()
@@ -158,17 +173,18 @@ def check(v, tier):
     seeds = list(range(24 if tier == 'quick' else 96))
     canary_keys = ['u8,u16,u32', 'Debug,Clone,PartialEq,Hash'] * 4
 
-    def run_seed(seed):
+    def run_seed(seed, full=False):
         env = dict(core.ENV)
         env['LD_PRELOAD'] = so
         env['VERIF_HASH_SEED'] = str(seed)
         sq = seqs[seed % 4]
         reqs = [('c%d' % k, 'h', ck) for k, ck in enumerate(canary_keys)] + [(str(k), 'x', inputs[i]) for k, i in enumerate(sq)]
-        res = xp.run_chunk(binary, reqs, env=env)
+        # the histories report expansions as hashes of their canonical token string (the comparison needs no more; the two reference runs are in full)
+        res = xp.run_chunk(binary, reqs, env=env, args=() if full else ('--hash-raw',))
         return seed, [r['raw'] for r in res[:len(canary_keys)]], res[len(canary_keys):]
 
     # the shim must control the seed: same seed twice => same canary, different seeds => different orders
-    a, b = run_seed(0), run_seed(0)
+    a, b = run_seed(0, full=True), run_seed(0, full=True)
     guard(a[1] == b[1], 'seed shim: same seed gave different canary orders')
     # the reference for every input is its expansion *alone in a fresh process*: whatever an expansion remembers cannot have influenced it
     # (driver option --isolate: each request is served by a forked child of the still idle driver process; a sample is cross-checked against really separate processes)
@@ -215,6 +231,7 @@ def check(v, tier):
                 if (fw[i] != base[i] or bw[i] != base[i]) and i not in bad:
                     bad[i] = (seed, i, ('real-backend', fw[i][:300], bw[i][:300]))
         v.notes['real_backend_seeds'] = 12
+    ref_h = {i: hashed(fp) for i, fp in ref.items()}
     orders = [set(), set()]
     nonvac = sum(1 for i in range(n) if ref[i][0] == 'ok' and ref[i][1].count('impl') >= 2)
     with cf.ThreadPoolExecutor(max_workers=core.JOBS) as ex:
@@ -224,7 +241,7 @@ def check(v, tier):
             for pos, (i, r) in enumerate(zip(seqs[seed % 4], res)):
                 v.cov['evaluations'] += 1
                 fp = fingerprint(r)
-                if fp != ref[i] and i not in bad:
+                if fp != ref_h[i] and i not in bad:
                     bad[i] = (seed, pos, fp)
     v.cov['states'] = n
     v.cov['transitions'] = len(seq) * len(seeds)
